@@ -842,6 +842,47 @@ theorem MatchReader_closed (a : Ans) (r : Reader) (he : a.err = false) :
   unfold MatchReader
   rw [readRunesR_eq, bind_ok, isMatch_eq a he]
 
+/-! ### bridge to the `Engine` machinery of `Model/Scan.lean` (C07) -/
+
+/-- a match of the sequence as a `Hit` of `Model/Scan.lean`: span and resume position -/
+def hitOf (rtl : Bool) (m : RMatch) : Scan.Hit := ⟨m.index, m.len, Scan.scanEnd rtl (m.index, m.len)⟩
+
+theorem prevEndOf_hit (rtl : Bool) (prev : Option RMatch) :
+    Scan.prevEndOf rtl (prev.map (hitOf rtl)) = prevEndOf rtl prev := by
+  cases prev with
+  | none => rfl
+  | some p => cases rtl <;> rfl
+
+theorem dropAbutting_hits (rtl : Bool) (prev : Option RMatch) (ms : List RMatch) :
+    (dropAbutting rtl prev ms).map (hitOf rtl) =
+      Scan.keepNonAdjacent rtl (prev.map (hitOf rtl)) (ms.map (hitOf rtl)) := by
+  induction ms generalizing prev with
+  | nil => rfl
+  | cons m rest ih =>
+    have ih' := ih (some m)
+    simp only [Option.map_some] at ih'
+    rw [dropAbutting, List.map_cons, Scan.keepNonAdjacent, prevEndOf_hit]
+    by_cases hd : m.len = 0 ∧ (m.index : Int) = prevEndOf rtl prev
+    · rw [if_pos hd, if_pos (by exact hd), ih']
+    · rw [if_neg hd, if_neg (by exact hd), List.map_cons, ih']
+
+theorem takeK_map {α β : Type} (f : α → β) (k : Int) (l : List α) : (takeK k l).map f = takeK k (l.map f) := by
+  unfold takeK
+  split
+  · rfl
+  · simp [List.map_take]
+
+/-- the matches the adapter's loops deliver are those of `Scan.compatForEach` / `Scan.findAll` whenever
+    the sequence is the `iterate` of a `Scan.Engine` -/
+theorem delivered_eq_scan (E : Scan.Engine) (rtl : Bool) (n : Nat) (ms : List RMatch)
+    (h : ms.map (hitOf rtl) = Scan.iterate E rtl n) (k : Int) :
+    (delivered rtl ms k).map (hitOf rtl) = Scan.compatForEach E rtl n k := by
+  unfold delivered Scan.compatForEach
+  have := Lemmas.Scan.compatLoop_eq E rtl n (n + 2) (Scan.firstMatch E rtl n) none k
+  simp only [Scan.prevEndOf] at this
+  rw [this, takeK_map, dropAbutting_hits, h]
+  rfl
+
 /-! ### the sample of the property file: `a(.)|(é)|y*` on "xa\xffé" (x, a, an invalid byte, a 2-byte rune) -/
 
 /-- the input "xa\xffé" as decoding steps -/
